@@ -752,6 +752,28 @@ def run_obligation(ob, seed=0, tier="quick", collect_functions=True):
                         pv.status = "inconclusive"
                         tb = "".join(traceback.format_exception(type(p.value), p.value, p.value.__traceback__)[-6:])
                         pv.detail = f"symbolic run raised {et}: {str(p.value)[:300]} ({pv.detail})\n{tb}"
+            elif p.kind == "stubmiss":
+                # a contract stub could not answer on this path (e.g. eigh on a matrix that is not the registered one).  The symbolic
+                # run stops there, but a model of the path can still be replayed on the real code: a failing claim is a real violation
+                pv = PathVerdict()
+                pv.status = "inconclusive"
+                pv.detail = f"stubmiss: {p.value}"
+                for margin in (1e-3, 1e-6, 0.0):
+                    s = _solver(20000)
+                    s.add(core.bounds_constraints(margin))
+                    s.add([a.tighten(margin).z3() if margin else a.z3() for a in assume_f])
+                    s.add([c.z3() for c in p.pc])
+                    s.add([d[0] for d in p.defs if d[0] is not None])
+                    if _check(s, pv) == "sat":
+                        try:
+                            vals = _model_inputs(ob, s.model())
+                            ok, label, detail = replay_concrete(ob, vals)
+                            if ok:
+                                pv.status, pv.replay, pv.label = "violation", vals, label
+                                pv.detail = f"path abandoned by a stub ({p.value}); a model of the path reproduced on the real code: {detail}"
+                                break
+                        except Exception:
+                            pass
             elif p.kind == "outside":
                 pv = PathVerdict()
                 pv.status = "outside"
